@@ -10,6 +10,15 @@ import (
 
 // CMI_STATE_INIT_START
 func (c *ShipConnection) handshakeInit_cmiStateInitStart() {
+	// the start is triggered by Run() or by the first incoming message, whatever
+	// comes first, and has to be done only once
+	c.startMux.Lock()
+	defer c.startMux.Unlock()
+
+	if c.getState() != model.CmiStateInitStart {
+		return
+	}
+
 	switch c.role {
 	case ShipRoleClient:
 		// CMI_STATE_CLIENT_SEND
